@@ -106,25 +106,40 @@ func (d *doublyConnectedEdgeList) assignFaces() {
 	}
 
 	// Populate inSet for faces that did not have edges from their respective
-	// input geometries.
+	// input geometries. This is done by flood filling, for each operand, the
+	// number of input polygons that cover each face (relative to the face that
+	// the fill starts from). Crossing an edge into the face on its other side
+	// leaves the polygons that have their interior on the near side of the
+	// edge, and enters the polygons that have their interior on the far side.
+	// Counting (rather than just tracking a boolean) matters when members of a
+	// GeometryCollection operand overlap: a hole of one member may be covered
+	// by another member. The faces covered by the fewest polygons (this always
+	// includes the unbounded face) are covered by no polygons at all.
 	forEachOperand(func(operand operand) {
-		visited := make(map[*faceRecord]bool)
-		var dfs func(*faceRecord)
-		dfs = func(f *faceRecord) {
-			if visited[f] {
-				return
-			}
-			visited[f] = true
+		if len(d.faces) == 0 {
+			return
+		}
+		depth := map[*faceRecord]int{d.faces[0]: 0}
+		minDepth := 0
+		stack := []*faceRecord{d.faces[0]}
+		for len(stack) > 0 {
+			f := stack[len(stack)-1]
+			stack = stack[:len(stack)-1]
 			forEachEdgeInCycle(f.cycle, func(e *halfEdgeRecord) {
-				if !e.srcFace[operand] {
-					e.twin.incident.inSet[operand] = true
-					dfs(e.twin.incident)
+				adj := e.twin.incident
+				if _, ok := depth[adj]; ok {
+					return
 				}
+				depth[adj] = depth[f] - e.srcFaceCount[operand] + e.twin.srcFaceCount[operand]
+				if depth[adj] < minDepth {
+					minDepth = depth[adj]
+				}
+				stack = append(stack, adj)
 			})
 		}
 		for _, f := range d.faces {
-			if f.inSet[operand] {
-				dfs(f)
+			if d, ok := depth[f]; ok && d > minDepth {
+				f.inSet[operand] = true
 			}
 		}
 	})
